@@ -38,6 +38,8 @@ THEOREMS = [
     "Crit.gc_delete_textbook",
     "Crit.gc_overdelete_rejected",
     "Crit.gc_evaluate_total",
+    "Crit.gc_log_form",
+    "Crit.gc_product_form_overflows",
     "Crit.gc_raw_overflows",
     "Crit.setter_next_trial_temperature",
     "Crit.setter_next_trial_pressure",
@@ -219,8 +221,9 @@ def log_wavelength(mass_amu, T):
     """log of the thermal de Broglie wavelength h / sqrt(2 pi m kT) in Angstrom"""
     E = env()
     m = mass_amu * 1e-3 / E["Nav"]
-    kT = E["kB"] * T * E["e"]
-    return math.log(E["h"]) - 0.5 * math.log(2 * math.pi * m * kT) + 10 * math.log(10.0)
+    # term by term: m * kT leaves the double range for T below 1e-260 K
+    return (math.log(E["h"]) - 0.5 * (math.log(2 * math.pi) + math.log(m) + math.log(E["kB"]) + math.log(T) + math.log(E["e"]))
+            + 10 * math.log(10.0))
 
 
 def textbook(case, over=None):
@@ -280,9 +283,9 @@ def plan(L, scale):
     if L == -math.inf:
         return [(0.0, False), (0.5, False)], "A=0"
     if tol > 1e-3:  # rounding of a 1e10-sized exponent: only decisions far from the threshold are meaningful
-        if L > 1:
+        if L > 1 + 10 * tol:
             return [(0.999999, True)], "huge-exponent-accept"
-        if L < -800:
+        if L < -800 - 10 * tol:
             return [(1e-3, False)], "huge-exponent-reject"
         return [], "ill-conditioned"
     if L >= 0:
@@ -425,6 +428,14 @@ def gen_case(rng, kind):
         c["species"] = rng.choice(SPECIES)
         c["mu"] = 0.0 if rng.random() < 0.1 else float(rng.choice([1, -1]) * logu(rng, -3, 1.3))
         c["Vacc"] = float(logu(rng, 0, 6))
+    if rng.random() < (0.12 if kind == "gc" else 0.04):
+        # the far ends of "every positive temperature" / "all positive volumes": nothing may raise there, and decisions
+        # far from the threshold stay the textbook ones (Lambda^3 and V^delta leave the double range long before log A does)
+        c["extreme"] = True
+        if kind != "gc" or rng.random() < 0.75:
+            c["T"] = float(10.0 ** rng.uniform(-290, 290))
+        if kind == "gc" and rng.random() < 0.5:
+            c["Vacc"] = float(10.0 ** rng.uniform(-150, 200))
     return c
 
 
@@ -553,6 +564,8 @@ class Decisions(common.Suite):
             extra = f",delta={case['delta']}" + (",N=0" if case["N"] == 0 else "")
         if case["E"] == case["E0"]:
             extra += ",dE=0"
+        if case.get("extreme"):
+            extra += ",extreme"
         return key + extra
 
 
